@@ -14,8 +14,7 @@ the stub interface confirms immediately and no rate limit is configured.  While 
 
 Orders left open: the outputs of ONE atomic reaction may appear in any order.
 Strict (timer-first discipline of the harness): a timer due at `t` has fired before an input or sample
-taken at `t`; of two timers due at the same instant the cooldown task is taken first (the generator
-avoids that tie; see notes/C41.md).
+taken at `t`.  Cooldown and periodic task due at the same instant: both orders are accepted (`tieOpt`).
 Core Lean only.
 -/
 import XknxVerif.Model.TraceRun
@@ -89,6 +88,9 @@ structure St where
   per : Option Nat := none
   conn : Bool := true
   expect : List Out := []
+  /-- an output that MAY still be observed at this instant: when cooldown task and periodic task are due at the
+  same instant and the cooldown task happens to run first, it writes the deferred value too (second, identical write) -/
+  opt : List Out := []
   -- ghost (never read by the monitor's decisions)
   /-- times of the update-caused writes (immediate `set` or cooldown task), most recent first -/
   uw : List Nat := []
@@ -210,14 +212,14 @@ def firePer (c : Cfg) (s : St) (t : Nat) : St × List Out :=
 
 def due (t : Nat) (incl : Bool) (d : Nat) : Bool := if incl then d ≤ t else d < t
 
-/-- The next timer to fire (cooldown first at equal deadlines), if it is due. -/
+/-- The next timer to fire (at equal deadlines the periodic task is taken first, see `tieOpt`). -/
 inductive Timer where
   | cd (d : Nat) | per (d : Nat)
   deriving DecidableEq, Repr
 
 def nextTimer (s : St) : Option Timer :=
   match s.cd, s.per with
-  | some a, some b => if a ≤ b then some (.cd a) else some (.per b)
+  | some a, some b => if a < b then some (.cd a) else some (.per b)
   | some a, none => some (.cd a)
   | none, some b => some (.per b)
   | none, none => none
@@ -252,7 +254,21 @@ def fuelFor (c : Cfg) (s : St) (t : Nat) : Nat :=
   (if c.per != 0 then 2 * ((t - s.now) / c.per) else 0) + 8
 
 def react (r : St × List Out) : St :=
-  { r.1 with expect := r.2 }
+  { r.1 with expect := r.2, opt := [] }
+
+/-- Cooldown task and periodic task due at the same instant `d`.  Both tasks run before any frame is processed.
+Periodic first: it writes the value set and restarts (= cancels) the cooldown task — one write.  Cooldown first:
+it writes the deferred value (if it differs from the bus value) and then the periodic task writes it again — two
+identical writes.  The state afterwards is the same; so the monitor fires the periodic task and allows ONE more
+identical write, which it books as update-caused. -/
+def tieOpt (s : St) : Timer → List Out
+  | .per d =>
+    if s.cd == some d && s.conn then
+      match s.pac with
+      | some p => if s.last == some p then [] else [.w p d]
+      | none => []
+    else []
+  | .cd _ => []
 
 /-- An output observed while nothing is expected: the next timer, due at exactly `t`, fires. -/
 def fireAt (c : Cfg) (s : St) (o : Out) (t : Nat) : Option St :=
@@ -261,7 +277,9 @@ def fireAt (c : Cfg) (s : St) (o : Out) (t : Nat) : Option St :=
   | some tm =>
     if tm.at == t then
       let (s', outs) := fire c s tm
-      if outs.contains o then some { s' with expect := outs.erase o, log := o :: s'.log } else none
+      if outs.contains o then
+        some { s' with expect := outs.erase o, log := o :: s'.log, opt := tieOpt s tm }
+      else none
     else none
 
 def inputReaction (c : Cfg) (s : St) : Obs → Option (St × List Out)
@@ -281,16 +299,20 @@ def step? (c : Cfg) (s : St) (o : Obs) : Option St :=
   if o.time < s.now then none else
   match o with
   | .out x =>
-    if s.expect.isEmpty then
+    if !s.expect.isEmpty then
+      (if x.time == s.now && s.expect.contains x then
+        some { s with expect := s.expect.erase x, log := x :: s.log }
+      else none)
+    else if x.time == s.now && s.opt.contains x then
+      -- the optional second write of a cooldown/periodic tie: caused by the cooldown task
+      some { s with opt := [], uw := s.now :: s.uw, log := x :: s.log }
+    else
       (advance c x.time false (fuelFor c s x.time) s).bind fun s1 => fireAt c s1 x x.time
-    else if x.time == s.now && s.expect.contains x then
-      some { s with expect := s.expect.erase x, log := x :: s.log }
-    else none
   | o =>
     if !s.expect.isEmpty then none else
     (advance c o.time true (fuelFor c s o.time) s).bind fun s1 =>
       match sampleOk s1 o with
-      | some ok => if ok then some (tick s1 o.time) else none
+      | some ok => if ok then some { tick s1 o.time with opt := [] } else none
       | none => (inputReaction c (tick s1 o.time) o).map react
 
 def accepts (c : Cfg) (connected : Bool) (tr : List Obs) : Bool :=
